@@ -254,6 +254,40 @@ def check_pairs(prop, tier, seed, work, modes, invariants, also=()):
     return cov, tot["violations"]
 
 
+def check_c32(tier, seed, work):
+    """C32: PruneCF of TreeLaws.tla on the slices with derived state: plain shape (config false
+    container st, replayed on the uncompressed packages) and OpenConfig shape (state-only leaf
+    c/s next to mirrored config/state leaves, replayed on the compressed packages incl.
+    prefer_operational_state)."""
+    ucfgs = ["us"] if tier == "quick" else ["us", "uw"]
+    ccfgs = ["cs", "co"] if tier == "quick" else ["cs", "cw", "co"]
+    h, bindir = vf.prepare(work, ucfgs + ccfgs)
+    two = dict(vals=q(["v1", "v2"]), keys=q(["K1", "K2"]), mkeys="")
+    states = trans = 0
+    results = []
+    for name, enabled, cfgs in (("ST", "EnabledST", ucfgs), ("SOC", "EnabledSOC", ccfgs)):
+        mc = vf.run_tlc(work, "MC_TreeLaws", LAWS_CFG % dict(two, enabled=enabled) + "INVARIANT ConfigFalseLaws\nCONSTRAINT EmitTree\n", tag="pcf" + name)
+        states += mc["distinct"]
+        trans += mc["states"]
+        args = ["-in", mc["out"], "-modes", "c32", "-seed", str(seed), "-prop", "C32", "-pkgs", ",".join(cfgs)]
+        if tier == "quick":
+            args += ["-limit", "3"]
+        r = run_replay(bindir, h, "trees", args, work, name)
+        if r["evaluated"] == 0:
+            raise Infra("replay of slice %s evaluated nothing" % name)
+        results.append(r)
+    tot = merge_results(results)
+    for d in tot["drift"][:10]:
+        log("SPEC-DRIFT:", d)
+    cov = dict(states=states, transitions=trans, traces_validated_against_impl=tot["evaluated"], samples=tot["samples"][:3] or [dict(note="see counters")],
+               exhaustive=(tier == "thorough"), counters=tot["counters"], configurations=ucfgs + ccfgs, spec_drift=tot["drift"][:10],
+               explanation="every well-formed tree of slice ST (config leaves, leaf-list, keyed list and the config false container st with its "
+               "leaf; the harness adds two elements of the unkeyed state list st/ul) on the uncompressed packages, and of slice SOC (config "
+               "leaves mirrored in state, nested list containers, the state-only leaf c/s) on the compressed packages including "
+               "prefer_operational_state, where every field is read from a config false path yet must be kept")
+    return cov, tot["violations"]
+
+
 def check_c04(tier, seed, work):
     """C04: HeapModel (disjoint cells <=> mutations invisible), then DeepCopy on every tree of the
     TreeLaws slices and MergeStructs on every pair of the PairLaws slices: address walk over all
@@ -617,6 +651,7 @@ PIPELINES = {
     "C03": lambda tier, seed, work: check_pairs("C03", tier, seed, work, "c03", ["DiffLaws"]),
     "C05": lambda tier, seed, work: check_pairs("C05", tier, seed, work, "c05", ["MergeLaws"]),
     "C04": check_c04,
+    "C32": check_c32,
     "C13": lambda tier, seed, work: check_gnmiset("C13", tier, seed, work, "setreq", ["SetSemantics"]),
     "C06": check_restrict,
     "C07": lambda tier, seed, work: check_feat("C07", tier, seed, work, "valid",
